@@ -120,6 +120,7 @@ func (e *Engine) chanInterfere(st *State, cs []Term) {
 		e.setChanHeap(st, "CH_closed", nc)
 		st.Assume(T(SBool, "(forall ((q_c Int)) (! (and (<= (select %s q_c) (select %s q_c)) (<= (select %s q_c) (select %s q_c)) (=> (select %s q_c) (select %s q_c))) :pattern ((select %s q_c)) :pattern ((select %s q_c)) :pattern ((select %s q_c))))",
 			oldH.S, nh.S, oldT.S, nt.S, oldC.S, nc.S, nh.S, nt.S, nc.S))
+		e.ownedChannelsStable(st, oldC, nc)
 		var keys []string
 		for k := range st.chanHeap {
 			if strings.HasPrefix(k, "CQ_") {
@@ -169,6 +170,11 @@ func (e *Engine) makeChan(st *State, fr *Frame, x *ssa.MakeChan) Val {
 	e.setChanHeap(st, "CH_closed", Store(e.chClosedArr(st), ref, False))
 	st.Assume(Eq(e.chCap(ref), sz))
 	st.Assume(Not(e.chEnv(ref)))
+	if e.rootC != nil && len(e.rootC.Extra["chanowner"]) > 0 {
+		if recv, ok := e.params["this"]; ok {
+			st.Assume(Eq(e.chOwner(ref), recv.L[0])) // ghost assignment at creation
+		}
+	}
 	return Val{T: resolve(x.Type(), fr.env), L: []Term{ref}}
 }
 
@@ -282,6 +288,7 @@ func (e *Engine) chanClose(st *State, fr *Frame, cv Val, pos string) {
 	e.obligationPanic(st, "close-of-nil", pos, Not(Eq(c, IntLit(0))))
 	e.chanInterfere(st, []Term{c})
 	e.obligationPanic(st, "close-of-closed", pos, Not(e.chClosed(st, c)))
+	e.closeProtected(st, c, pos)
 	pre := st.Clone()
 	e.setChanHeap(st, "CH_closed", Store(e.chClosedArr(st), c, True))
 	e.recordAction(st, &Action{Kind: "ChanClose", Obj: c, Pre: pre, Post: st.Clone()})
